@@ -824,9 +824,13 @@ func (s *ShapeIndex) maybeApplyUpdates() {
 	if atomic.LoadInt32(&s.status) != fresh {
 		verifSched("index.beforeLock")
 		s.mu.Lock()
-		s.applyUpdatesInternal()
-		verifSched("index.beforeStatusStore")
-		atomic.StoreInt32(&s.status, fresh)
+		// Another goroutine may have applied the updates while we were
+		// waiting for the lock.
+		if atomic.LoadInt32(&s.status) != fresh {
+			s.applyUpdatesInternal()
+			verifSched("index.beforeStatusStore")
+			atomic.StoreInt32(&s.status, fresh)
+		}
 		verifSched("index.beforeUnlock")
 		s.mu.Unlock()
 	}
@@ -839,6 +843,19 @@ func (s *ShapeIndex) applyUpdatesInternal() {
 	// edge as the final index memory size. If this causes issues, add in
 	// batched updating to limit the amount of items per batch to a
 	// configurable memory footprint overhead.
+	// Incremental updates (absorbing existing index cells, removing shapes)
+	// are not implemented yet: the code paths below that handle them re-enter
+	// maybeApplyUpdates through Iterator() while the lock is held (self
+	// deadlock) and rely on unimplemented tracker methods. Until they are
+	// finished, updating an index that has already been built rebuilds it from
+	// scratch, which produces the same index.
+	if !s.isFirstUpdate() {
+		s.cellMap = make(map[CellID]*ShapeIndexCell)
+		s.cells = nil
+		s.pendingAdditionsPos = 0
+		s.pendingRemovals = nil
+	}
+
 	t := newTracker()
 
 	// allEdges maps a Face to a collection of faceEdges.
@@ -848,7 +865,9 @@ func (s *ShapeIndex) applyUpdatesInternal() {
 		s.removeShapeInternal(p, allEdges, t)
 	}
 
-	for id := s.pendingAdditionsPos; id < int32(len(s.shapes)); id++ {
+	// Shape ids are not reused, so after a removal the number of shapes is
+	// smaller than the largest id: iterate over ids, not over the map size.
+	for id := s.pendingAdditionsPos; id < s.nextID; id++ {
 		s.addShapeInternal(id, allEdges, t)
 	}
 
@@ -857,7 +876,7 @@ func (s *ShapeIndex) applyUpdatesInternal() {
 	}
 
 	s.pendingRemovals = s.pendingRemovals[:0]
-	s.pendingAdditionsPos = int32(len(s.shapes))
+	s.pendingAdditionsPos = s.nextID
 	// It is the caller's responsibility to update the index status.
 }
 
@@ -1213,7 +1232,7 @@ func (s *ShapeIndex) makeIndexCell(p *PaddedCell, edges []*clippedEdge, t *track
 	for i := 0; i < numShapes; i++ {
 		var clipped *clippedShape
 		// advance to next value base + i
-		eshapeID := int32(s.Len())
+		eshapeID := s.nextID
 		cshapeID := eshapeID // Sentinels
 
 		if eNext != len(edges) {
